@@ -131,14 +131,16 @@ class StreamInSub(Sub):
             return sum(len(p["data"]) for p in kept) == total and kept and len(kept[-1]["data"]) < mps
 
         drained = dict(n=0)
-        DRAIN_LIMIT = 2 * (-(-total // mps)) + 12
+        DRAIN_LIMIT = 3 * (-(-total // mps)) + 12
 
         def more(host):
             st_["drain"] = True
             if complete(self.reassemble(host, ep)) or drained["n"] >= DRAIN_LIMIT:
                 return None
             drained["n"] += 1
-            return dict(k="in", ep=ep, mine=True, hs="ack", gap=2 + (drained["n"] % 3) * 7, ack_delay=2)
+            # leave the (now always-valid) producer time to fill a packet buffer before each poll
+            fill = min(total - st_["idx"], mps)
+            return dict(k="in", ep=ep, mine=True, hs="ack", gap=2 + fill + (drained["n"] % 3) * 7, ack_delay=2)
 
         host = EpHost(case["ev"], d=case["d"], phy=case["phy"], pid_wait=case["pid_wait"], side=side, more=more)
         self.harness(cfg).run_driver(host, 1000000)
